@@ -6,6 +6,8 @@ import Dirk.Spec.Slashing
 import Dirk.Props.C05
 import Dirk.Props.C06
 import Dirk.Spec.Perms
+import Dirk.Spec.Import
+import Dirk.Model.Scatter
 
 namespace Driver
 open Dirk
@@ -20,6 +22,8 @@ structure DState where
   -- judge state
   jvotes : List (Bytes × Spec.Vote) := []
   jprops : List (Bytes × PropData) := []
+  jfile : IFile := { metadata := none, data := [] }
+  dbB : Option Db := none          -- the re-imported copy after `roundtrip`
   deriving Inhabited
 
 def addPerm (ps : Perms) (client : String) (e : PermEntry) : Perms :=
@@ -47,6 +51,42 @@ def splitItems (s : String) : List (List String) := (s.splitOn ";").map (·.spli
 
 /-- source address field: `-` / `.` = absent -/
 def ipOf (s : String) : Option String := if s == "-" || s == "." then some "" else unhexStr s
+
+/-- `.` = empty string -/
+def hs (s : String) : Option String := if s == "." then some "" else unhexStr s
+
+def parseIFile (metaS entriesS : String) : Option IFile :=
+  let md? : Option (Option (String × String)) :=
+    if metaS == "-" then some none else
+    match metaS.splitOn "," with
+    | [v, g] => match hs v, hs g with
+      | some v, some g => some (some (v, g))
+      | _, _ => none
+    | _ => none
+  let entries? : Option (List FileEntry) :=
+    if entriesS == "-" then some [] else
+    (entriesS.splitOn ";").mapM (fun e =>
+      match e.splitOn "," with
+      | [pk, bl, att] =>
+        let blocks? := if bl == "-" then some [] else (bl.splitOn ":").mapM hs
+        let atts? := if att == "-" then some [] else (att.splitOn ":").mapM (fun p =>
+          match p.splitOn "~" with
+          | [a, b] => match hs a, hs b with
+            | some a, some b => some (a, b)
+            | _, _ => none
+          | _ => none)
+        match hs pk, blocks?, atts? with
+        | some pk, some blocks, some atts => some { pubkey := pk, blocks := blocks, atts := atts }
+        | _, _, _ => none
+      | _ => none)
+  match md?, entries? with
+  | some m, some es => some { metadata := m, data := es }
+  | _, _ => none
+
+def parseProt (a b c : String) : Option Protection :=
+  match a.toInt?, b.toInt?, c.toInt? with
+  | some a, some b, some c => some { slot := a, src := b, tgt := c }
+  | _, _, _ => none
 
 def bad (st : DState) (l : String) : DState × Option String := (st, some ("bad-op " ++ l))
 
@@ -151,6 +191,95 @@ def dstep (st : DState) (line : String) : DState × Option String :=
     | some k, some d =>
       let clash := st.jprops.any (fun e => e.1 == k && decide (d.slot ≤ e.2.slot))
       ({ st with jprops := st.jprops ++ [(k, d)] }, some (if clash then "NOT-INCREASING" else "ok"))
+    | _, _ => bad st line
+  | ["import", gvr, md, entries] =>
+    match hs gvr, parseIFile md entries with
+    | some gvr, some f =>
+      match importFile gvr st.inst.db f with
+      | .ok db' => ({ st with inst := { st.inst with db := db' } }, some "ok")
+      | .error => (st, some "err")
+    | _, _ => bad st line
+  | ["probeatt", pk, s, t] =>
+    match unhex pk, s.toNat?, t.toNat? with
+    | some pk, some s, some t =>
+      let req : AttReq := { domain := domAttester ++ List.replicate 28 0, src := s, tgt := t }
+      let r := onAttest st.inst.db pk req {}
+      match st.dbB with
+      | none => ({ st with inst := { st.inst with db := r.2 } }, some r.1.toStr)
+      | some b =>
+        let rb := onAttest b pk req {}
+        ({ st with inst := { st.inst with db := r.2 }, dbB := some rb.2 }, some (r.1.toStr ++ " " ++ rb.1.toStr))
+    | _, _, _ => bad st line
+  | ["probeprop", pk, slot] =>
+    match unhex pk, slot.toNat? with
+    | some pk, some slot =>
+      let req : PropReq := { domain := domProposer ++ List.replicate 28 0, slot := slot }
+      let r := onPropose st.inst.db pk req {}
+      match st.dbB with
+      | none => ({ st with inst := { st.inst with db := r.2 } }, some r.1.toStr)
+      | some b =>
+        let rb := onPropose b pk req {}
+        ({ st with inst := { st.inst with db := r.2 }, dbB := some rb.2 }, some (r.1.toStr ++ " " ++ rb.1.toStr))
+    | _, _ => bad st line
+  | ["roundtrip"] =>
+    let g := "0x0000000000000000000000000000000000000000000000000000000000000001"
+    match toFile g st.inst.db with
+    | none => (st, some "E-ERR")
+    | some f =>
+      match importFile g [] f with
+      | .ok b => ({ st with dbB := some b }, some (exportLine b))
+      | .error => (st, some "E-IMPORT-ERR")
+  | ["exportb"] =>
+    match st.dbB with
+    | none => (st, some "E-NOTWIN")
+    | some b => (st, some (exportLine b))
+  | ["scatter", n, p] =>
+    match n.toNat?, p.toNat? with
+    | some n, some p =>
+      (st, some (" ".intercalate ((extents n p).map (fun e => toString e.1 ++ ":" ++ toString e.2))))
+    | _, _ => bad st line
+  -- judge C09: a well-formed, authorised, fault-free attestation request was answered `state`;
+  -- if it advances on everything released so far for the key it must have been signed
+  | ["jliveatt", k, s, t, state] =>
+    match unhex k, s.toNat?, t.toNat? with
+    | some k, some s, some t =>
+      let mine := st.jvotes.filter (fun e => e.1 == k)
+      let advancing := mine.all (fun e => decide (e.2.tgt < t) && decide (e.2.src ≤ s))
+      let must := advancing && decide (s < two63) && decide (t < two63) && (decide (s < t) || (s == 0 && t == 0))
+      (st, some (if must && state != "S" then "REFUSED-ADVANCING" else "ok"))
+    | _, _, _ => bad st line
+  | ["jliveprop", k, slot, state] =>
+    match unhex k, slot.toNat? with
+    | some k, some slot =>
+      let mine := st.jprops.filter (fun e => e.1 == k)
+      let must := mine.all (fun e => decide (e.2.slot < slot)) && decide (slot < two63)
+      (st, some (if must && state != "S" then "REFUSED-ADVANCING" else "ok"))
+    | _, _ => bad st line
+  -- judge C11: the export states, for key k, exactly the highest released slot / source / target
+  | ["jexport", k, a, b, c] =>
+    match unhex k, parseProt a b c with
+    | some k, some p =>
+      let votes := (st.jvotes.filter (fun e => e.1 == k)).map (·.2)
+      let props := (st.jprops.filter (fun e => e.1 == k)).map (·.2)
+      let mx (l : List Nat) : Int := l.foldl (fun (acc : Int) (x : Nat) => if Int.ofNat x > acc then Int.ofNat x else acc) (-1)
+      let want : Protection := { slot := mx (props.map (·.slot)), src := mx (votes.map (·.src)), tgt := mx (votes.map (·.tgt)) }
+      (st, some (if want == p then "ok" else "EXPORT-NOT-EXACT"))
+    | _, _ => bad st line
+  -- judge C10: remember the file of the import being judged …
+  | ["jimpfile", md, entries] =>
+    match parseIFile md entries with
+    | some f => ({ st with jfile := f }, some "ok")
+    | none => bad st line
+  -- … then, per key: protection exported before / after a *successful* import
+  | ["jimpkey", k, b1, b2, b3, a1, a2, a3] =>
+    match unhex k, parseProt b1 b2 b3, parseProt a1 a2 a3 with
+    | some k, some b, some a =>
+      (st, some (if Spec.importProtects st.jfile k b a then "ok" else "WEAKENED"))
+    | _, _, _ => bad st line
+  -- … or a *failed* import
+  | ["jimpfail", _k, b1, b2, b3, a1, a2, a3] =>
+    match parseProt b1 b2 b3, parseProt a1 a2 a3 with
+    | some b, some a => (st, some (if Spec.importUnchanged b a then "ok" else "CHANGED-ON-FAILURE"))
     | _, _ => bad st line
   -- judge C07: the implementation answered `res` to Check(client, account, op): does the Lean
   -- specification (first bearing item, whole-name matching) say the same?
